@@ -126,6 +126,47 @@ Section Reach.
     eapply incl_tran; [apply IH; exact He0|apply (gr_added _ _ (step_grows st e st' Hs He))].
   Qed.
 
+  (* only a launch changes the set of launched jobs, by putting the job in front *)
+  Lemma launched_const_complete_one s k : g_launched (complete_one s k) = g_launched s.
+  Proof. unfold complete_one. destruct (lookup k (pending s)); [|reflexivity]. destruct (memN k (success s)); reflexivity. Qed.
+
+  Lemma launched_const_fold_complete (l : list (N * N)) : forall s,
+    g_launched (fold_left (fun s a => complete_one s (fst a)) l s) = g_launched s.
+  Proof. induction l as [|a l IHl]; intro s; cbn [fold_left]; [reflexivity|]. rewrite IHl. apply launched_const_complete_one. Qed.
+
+  Lemma launched_const_complete_with_also s k : g_launched (complete_with_also s k) = g_launched s.
+  Proof.
+    unfold complete_with_also. destruct (lookup k (pending s)); [|reflexivity].
+    rewrite launched_const_fold_complete. apply launched_const_complete_one.
+  Qed.
+
+  Lemma launched_const_action a s : g_launched (do_action s a) = g_launched s.
+  Proof.
+    destruct a as [d|soft j acc|j]; cbn [do_action].
+    - apply insert_fields.
+    - destruct (lookup j (pending s)); [reflexivity|]. destruct soft; reflexivity.
+    - destruct (lookup j (pending s)) as [pj|]; [|reflexivity].
+      destruct (palso pj || memN j (g_launched s)); [reflexivity|]. rewrite launched_const_complete_with_also.
+      destruct (finish_counters_fields s j pj) as (_ & _ & _ & _ & Fl & _). exact Fl.
+  Qed.
+
+  Lemma launched_const_actions acts : forall s, g_launched (fold_left do_action acts s) = g_launched s.
+  Proof. induction acts as [|a acts IHa]; intro s; cbn [fold_left]; [reflexivity|]. rewrite IHa. apply launched_const_action. Qed.
+
+  Lemma step_launched st e st' : step G st e = Some st' ->
+    g_launched st' = g_launched st \/ (exists i, e = Launch i /\ g_launched st' = i :: g_launched st).
+  Proof.
+    intro Hs. destruct e as [i|i|i]; cbn [step] in Hs.
+    - destruct (lookup i (pending st)) as [pj|]; [|discriminate].
+      destruct (palso pj || prun pj || negb (can_run st i (pacc pj))); [discriminate|]. injection Hs as <-.
+      right. exists i. split; reflexivity.
+    - destruct (lookup i (pending st)) as [pj|]; [|discriminate].
+      destruct (memN i (g_launched st) && negb (memN i (g_wfin st))); [|discriminate]. injection Hs as <-.
+      left. destruct (finish_counters_fields st i pj) as (_ & _ & _ & _ & Fl & _). exact Fl.
+    - destruct (memN i (g_launched st) && memN i (g_wfin st) && negb (memN i (success st))); [|discriminate].
+      injection Hs as <-. left. rewrite launched_const_actions. apply launched_const_complete_with_also.
+  Qed.
+
   (* ---- the moment a job was launched ------------------------------------------------------ *)
   (* if y has been launched, there was a reachable state st0 in which y was pending, not an
      also-completes entry, runnable under its then-current access, and the state right after that
@@ -136,7 +177,8 @@ Section Reach.
       /\ can_run st0 y (pacc pj) = true
       /\ reach st1 /\ err st1 = false /\ In y (g_launched st1)
       /\ success st1 = success st0 /\ g_wfin st1 = g_wfin st0
-      /\ grows st1 st /\ g_added st1 = g_added st0.
+      /\ grows st1 st /\ g_added st1 = g_added st0
+      /\ g_launched st1 = y :: g_launched st0 /\ (exists ext, g_launched st = ext ++ g_launched st1).
   Proof.
     induction 1 as [|st e st' Hr IH Hs]; intros He Hy.
     - exfalso. destruct (init_inv G Hwf) as (A & _ & _).
@@ -149,10 +191,11 @@ Section Reach.
     - pose proof (reach_err_false st Hr st' e Hs He) as He0.
       pose proof (step_grows st e st' Hs He) as Hg.
       destruct (in_dec N.eq_dec y (g_launched st)) as [Hin|Hout].
-      + destruct (IH He0 Hin) as (st0 & pj & st1 & A1 & A2 & A3 & A4 & A5 & A6 & A7 & A8 & A9 & A10 & A11 & A12).
+      + destruct (IH He0 Hin) as (st0 & pj & st1 & A1 & A2 & A3 & A4 & A5 & A6 & A7 & A8 & A9 & A10 & A11 & A12 & A13 & ext & A14).
         exists st0, pj, st1. split; [exact A1|]. split; [exact A2|]. split; [exact A3|]. split; [exact A4|]. split; [exact A5|].
         split; [exact A6|]. split; [exact A7|]. split; [exact A8|]. split; [exact A9|]. split; [exact A10|].
-        split; [eapply grows_trans; [exact A11|exact Hg]|exact A12].
+        split; [eapply grows_trans; [exact A11|exact Hg]|]. split; [exact A12|]. split; [exact A13|].
+        destruct (step_launched st e st' Hs) as [E|(i & _ & E)]; rewrite E, A14; [exists ext|exists (i :: ext)]; reflexivity.
       + (* this very step launched y *)
         destruct e as [i|i|i]; cbn [step] in Hs.
         * destruct (lookup i (pending st)) as [pj|] eqn:Hl; [|discriminate].
@@ -166,7 +209,7 @@ Section Reach.
           split; [exact Hcr|]. split.
           { apply (reach_step st (Launch y) st' Hr). cbn [step]. rewrite Hl, Hguard, Hs. reflexivity. }
           split; [exact He|]. split; [exact Hy|]. rewrite <- Hs. cbn [success g_wfin g_added]. split; [reflexivity|]. split; [reflexivity|].
-          split; [rewrite Hs; apply grows_refl|reflexivity].
+          split; [rewrite Hs; apply grows_refl|]. split; [reflexivity|]. split; [reflexivity|]. exists []. reflexivity.
         * exfalso. apply Hout. destruct Hg as [_ _ G3 _].
           destruct (lookup i (pending st)) as [pj|]; [|discriminate].
           destruct (memN i (g_launched st) && negb (memN i (g_wfin st))); [|discriminate]. injection Hs as <-.
